@@ -121,35 +121,25 @@ def get_dataflow(U, rep):
   I2.extern = extern2
   rep.check(I2.apply(fn(CT, 'get'), [sysd, x], {}) is None, 'R10.2', 'get returns None iff the model has no contact pairs',
             'contact.get does not return None for ncon == 0', where=f.where())
-  # loader: elasticity is a per-geom custom with default 0
+  # loader: the per-model custom parameters, decided on values -- mjcf._get_custom is abstractly executed on mock
+  # models (numeric and tuple <custom> elements; sizes and ids concrete, values symbolic) and compared with the
+  # reference: geom-typed customs (elasticity) have ngeom entries in geom order, body-typed ones nbody entries with one
+  # leading entry for the world body, single values are broadcast, tuples set the listed objects only
+  from braxlint import loader
   fc = U.func('brax.io.mjcf._get_custom')
-  found = False
-  for n in ast.walk(fc.node):
-    if isinstance(n, ast.Dict):
-      for k, v in zip(n.keys, n.values):
-        if isinstance(k, ast.Constant) and k.value == 'elasticity' and ast.unparse(v) == "(0.0, 'geom')":
-          found = True
-  rep.check(found, 'R10.3', 'loader: elasticity is a per-geom custom (default 0.0)', 'elasticity is no longer read as a per-geom custom value',
-            where=fc.where())
-  # per-geom customs keep exactly ngeom entries: the world-body padding applies to body-typed values only,
-  # and the per-type size table maps 'geom' to mj.ngeom
-  from braxlint import pred
-  pads, sizes = [], []
-
-  def on_assign(s_, pc, env, N):
-    if isinstance(s_, ast.Assign) and isinstance(s_.value, ast.Call) and (ast.unparse(s_.value.func).endswith('concatenate')):
-      pads.append((s_, pred.atoms_of(pc)))
-    if isinstance(s_, ast.Assign) and isinstance(s_.targets[0], ast.Name) and s_.targets[0].id == 'size':
-      sizes.append(pred.show(N.term(s_.value, env)))
-
-  pred.sym_walk(fc.node, fc.mod, on_assign=on_assign, drop_raise_negations=False)
-  okpad = bool(pads) and all(any(a.endswith("∈ {'body'}") for a in pc) for _, pc in pads)
-  rep.check(okpad, 'R10.3', 'loader: only body-typed customs are padded for the world body',
-            'a custom value that is not body-typed (e.g. the per-geom elasticity) gets an extra leading entry, so geom g reads the '
-            'elasticity of geom g-1', where=fc.where(pads[0][0]) if pads else fc.where(),
-            construct='; '.join(sorted(pads[0][1])) if pads else '')
-  rep.check(any("'geom':mj.ngeom" in x for x in sizes), 'R10.3', 'loader: geom-typed customs have mj.ngeom entries',
-            'the size table no longer maps geom-typed customs to mj.ngeom', where=fc.where())
+  res = loader.compare_custom(U.repo)
+  if len(res) < 30:
+    raise AnalysisError('R10.3: only %d custom-parameter comparisons' % len(res))
+  by = {}
+  for mock_name, key, ok in res:
+    by.setdefault(key, []).append((mock_name, ok))
+  for key in sorted(by):
+    bad = [m for m, ok in by[key] if not ok]
+    rule = 'R10.3'
+    rep.check(not bad, rule, 'loader: custom parameter `%s`' % key,
+              'mjcf._get_custom does not return the reference value of `%s` (mock model: %s)%s' % (
+                  key, bad[0] if bad else '', '; per-geom values must have exactly ngeom entries in geom order' if key == 'elasticity' else ''),
+              where=fc.where(), construct='%d mock models: numeric / tuple custom elements, sizes and ids concrete, values symbolic' % len(by[key]))
 
 
 def no_alias(U, rep, tier, rule='R10.4', key='%s: world contact (-1) does not alias the last link',
